@@ -6,6 +6,7 @@ package main
 
 import (
 	"strconv"
+	"strings"
 
 	"golang.org/x/perf/internal/verifh/hx"
 )
@@ -106,6 +107,7 @@ type base struct {
 	results  []ResT
 	failAt   int // >= 0: insert a rejected Parse call (see scenarioOf)
 	failExpr []SpecT
+	resEarly int // >= 0: position of Residue() among the Parse calls
 }
 
 func genBase(r *hx.Rand) base {
@@ -116,6 +118,10 @@ func genBase(r *hx.Rand) base {
 		b.withUnit = append(b.withUnit, r.Chance(1, 5))
 	}
 	b.failAt = -1
+	b.resEarly = -1
+	if r.Chance(1, 3) {
+		b.resEarly = r.Intn(100)
+	}
 	if r.Chance(1, 3) {
 		b.failAt = r.Intn(1000)
 		b.failExpr = genExpr(r)
@@ -186,7 +192,17 @@ func scenarioOf(b base, perm []int, residue bool, tags ...string) Scenario {
 		}
 	}
 	if residue {
-		sc.Ops = append(sc.Ops, Op{Kind: 'R'})
+		// Residue() is mostly requested after all Parse calls, but in a third of the bases BEFORE some of
+		// them (the keys parsed later are excluded from its groups all the same: the closures read the
+		// parser when results are projected)
+		pos := len(sc.Ops)
+		if b.resEarly >= 0 {
+			pos = b.resEarly % (len(sc.Ops) + 1)
+			sc.Tags = append(sc.Tags, "residue-early")
+		}
+		ops := append([]Op(nil), sc.Ops[:pos]...)
+		ops = append(ops, Op{Kind: 'R'})
+		sc.Ops = append(ops, sc.Ops[pos:]...)
 		sc.Tags = append(sc.Tags, "residue")
 	}
 	nq := 0
@@ -306,6 +322,88 @@ func genCollide(r *hx.Rand) Scenario {
 	return sc
 }
 
+// genResidueOrders: every order of the four calls Parse(".fullname"), Residue(), Parse("/p"),
+// Parse("k0") on one parser, then one stream of results: whatever the order, /p and k0 are projected
+// individually and therefore missing from `.fullname` and from the residue's groups.
+func genResidueOrders(r *hx.Rand, emit func(Scenario)) {
+	calls := []Op{
+		{Kind: 'P', Specs: []SpecT{{Key: ".fullname", Order: "first"}}},
+		{Kind: 'R'},
+		{Kind: 'P', Specs: []SpecT{{Key: hx.Pick(r, []string{"/p", "/q", "/gomaxprocs"}), Order: "first"}}},
+		{Kind: 'P', Specs: []SpecT{{Key: "k0", Order: "first"}}},
+	}
+	var results []ResT
+	for i := 0; i < 5; i++ {
+		results = append(results, genResult(r, i+2))
+	}
+	permutations(len(calls), func(perm []int) {
+		sc := Scenario{S: true, Tags: []string{"residue-orders", "residue", "specific", "group"}}
+		for _, i := range perm {
+			sc.Ops = append(sc.Ops, calls[i])
+		}
+		for _, res := range results {
+			sc.Ops = append(sc.Ops, Op{Kind: 'A', Res: res})
+		}
+		emit(sc)
+	})
+}
+
+// genSepCollide: values that CONTAIN a likely row separator ('\n', '\x00'): the parts a, b, c joined by the
+// separator and grouped into fields in every way — ("a\nb","c") vs ("a","b\nc") — as sub-name keys
+// of one name or as file keys.
+func genSepCollide(r *hx.Rand) Scenario {
+	sep := hx.Pick(r, []string{"\n", "\x00", "\n", "\x00\n"})
+	parts := hx.Pick(r, [][]string{{"a", "b", "c"}, {"a", "", "b"}, {"x", "x", "x", "x"}, {"1", "10", "0"}})
+	nf := 2
+	if len(parts) > 3 && r.Bool() {
+		nf = 3
+	}
+	var tuples [][]string
+	var rec func(from, left int, cur []string)
+	rec = func(from, left int, cur []string) {
+		if left == 1 {
+			tuples = append(tuples, append(append([]string(nil), cur...), strings.Join(parts[from:], sep)))
+			return
+		}
+		for to := from + 1; to <= len(parts)-left+1; to++ {
+			rec(to, left-1, append(cur, strings.Join(parts[from:to], sep)))
+		}
+	}
+	rec(0, nf, nil)
+	sc := Scenario{S: true, Tags: []string{"collide", "separator"}}
+	inName := r.Bool()
+	names := []string{"/tmpl", "/out", "/z"}[:nf]
+	keys := []string{"k0", "k1", "k2"}[:nf]
+	var specs []SpecT
+	for i := 0; i < nf; i++ {
+		if inName {
+			specs = append(specs, SpecT{Key: names[i], Order: "first"})
+		} else {
+			specs = append(specs, SpecT{Key: keys[i], Order: "first"})
+		}
+	}
+	sc.Ops = append(sc.Ops, Op{Kind: 'P', Specs: specs})
+	if !inName && r.Bool() {
+		sc.Ops = append(sc.Ops, Op{Kind: 'P', Specs: []SpecT{{Key: ".config", Order: "first"}}})
+	}
+	sc.Ops = append(sc.Ops, Op{Kind: 'R'})
+	for _, t := range append(tuples, tuples[0]) {
+		res := ResT{Name: "Render", Units: []string{"ns/op"}}
+		for i := 0; i < nf; i++ {
+			if inName {
+				res.Name += names[i] + "=" + t[i]
+			} else if t[i] != "" {
+				res.Cfg = append(res.Cfg, CfgT{keys[i], t[i], true})
+			}
+		}
+		if inName {
+			res.Name += "-8"
+		}
+		sc.Ops = append(sc.Ops, Op{Kind: 'A', Res: res})
+	}
+	return sc
+}
+
 func main() {
 	defer hx.Flush()
 	r := hx.NewRand(8)
@@ -336,6 +434,12 @@ func main() {
 		emit(konly(r, b))
 		if i%10 == 3 {
 			emit(genCollide(r))
+		}
+		if i%10 == 6 {
+			emit(genSepCollide(r))
+		}
+		if i%40 == 9 {
+			genResidueOrders(r, emit)
 		}
 		if i%3 == 0 {
 			// the same results streamed through a real benchfmt.Reader and projected without Clone
